@@ -100,6 +100,11 @@ func (c *c12) l1Matrix(env *L1Env, past map[string][]string, log []string) {
 	delIdx := next
 	next++
 	fresh := sim.NewAccount(fmt.Sprintf("fresh%d", c.rng.Intn(1_000_000))).String()
+	cur, err := base.L1.K.GetBridgeConfig(base.L1.Ctx, 1)
+	if err != nil {
+		panic(err)
+	}
+	curParams := base.L1.K.GetParams(base.L1.Ctx)
 	for _, cand := range cands {
 		x := cand.addr
 		type pm struct {
@@ -116,6 +121,13 @@ func (c *c12) l1Matrix(env *L1Env, past map[string][]string, log []string) {
 			// the signer names itself as the successor (a check made against the proposed instead of the stored holder)
 			{"MsgUpdateProposer(self)", ophosttypes.NewMsgUpdateProposer(x, 1, x), isGov(x) || isP(x)},
 			{"MsgUpdateChallenger(self)", ophosttypes.NewMsgUpdateChallenger(x, 1, x), isGov(x) || isC(x)},
+			// the update changes nothing (names the current holder / repeats the stored value): who may send it is the same
+			{"MsgUpdateProposer(no change)", ophosttypes.NewMsgUpdateProposer(x, 1, cur.Proposer), isGov(x) || isP(x)},
+			{"MsgUpdateChallenger(no change)", ophosttypes.NewMsgUpdateChallenger(x, 1, cur.Challenger), isGov(x) || isC(x)},
+			{"MsgUpdateBatchInfo(no change)", ophosttypes.NewMsgUpdateBatchInfo(x, 1, cur.BatchInfo), isGov(x) || isP(x)},
+			{"MsgUpdateMetadata(no change)", ophosttypes.NewMsgUpdateMetadata(x, 1, cur.Metadata), isGov(x) || isP(x)},
+			{"MsgUpdateOracleConfig(no change)", ophosttypes.NewMsgUpdateOracleConfig(x, 1, cur.OracleEnabled), isGov(x) || isP(x)},
+			{"MsgUpdateParams(no change)", ophosttypes.NewMsgUpdateParams(x, &curParams), isGov(x)},
 			{"MsgUpdateBatchInfo", ophosttypes.NewMsgUpdateBatchInfo(x, 1, ophosttypes.BatchInfo{Submitter: fresh, ChainType: ophosttypes.BatchInfo_CHAIN_TYPE_CELESTIA}), isGov(x) || isP(x)},
 			{"MsgUpdateMetadata", ophosttypes.NewMsgUpdateMetadata(x, 1, []byte("meta")), isGov(x) || isP(x)},
 			{"MsgUpdateOracleConfig", ophosttypes.NewMsgUpdateOracleConfig(x, 1, true), isGov(x) || isP(x)},
@@ -257,6 +269,7 @@ func (c *c12) l2Matrix(o *OracleEnv, admin string, execs []string, pastExecs, pa
 	commit := o.BuildCommit(uint64(o.HostHeight)+1, 1, o.HonestSpecs(pricesAt(1_000_000, ts)))
 	newVal := NewValKey(50 + c.rng.Intn(1000))
 	params, _ := l2.K.GetParams(l2.Ctx)
+	same, _ := l2.K.GetParams(l2.Ctx)
 	params.HookMaxGas++
 	for _, cand := range cands {
 		x := cand.addr
@@ -278,6 +291,8 @@ func (c *c12) l2Matrix(o *OracleEnv, admin string, execs []string, pastExecs, pa
 			{"MsgAddValidator", addMsg, isAuth},
 			{"MsgRemoveValidator", rmMsg, isAuth},
 			{"MsgUpdateParams", opchildtypes.NewMsgUpdateParams(x, &params), isAuth},
+			{"MsgUpdateParams(no change)", opchildtypes.NewMsgUpdateParams(x, &same), isAuth},
+			{"MsgSpendFeePool(nothing)", &opchildtypes.MsgSpendFeePool{Authority: x, Recipient: o.Users[2].String(), Amount: sdk.Coins{}}, isAuth},
 			{"MsgSpendFeePool", &opchildtypes.MsgSpendFeePool{Authority: x, Recipient: o.Users[2].String(), Amount: sdk.NewCoins(sdk.NewCoin("ufee", math.NewInt(3)))}, isAuth},
 			{"MsgExecuteMessages", exec, isAdmin},
 		}
@@ -610,8 +625,8 @@ func checkC12(run *mon.Run, rng *mon.Rand, thorough bool) {
 	for _, c := range []string{"C12.declared_signer_is_role_field", "C12.role_holder_accepted", "C12.non_holder_rejected", "C12.execute_messages_all_or_nothing", "C12.binding_fixed", "C12.binding_refresh_allowed"} {
 		run.Declare(c, 4)
 	}
-	for _, m := range []string{"L1.MsgProposeOutput", "L1.MsgDeleteOutput", "L1.MsgUpdateProposer", "L1.MsgUpdateChallenger", "L1.MsgUpdateProposer(self)", "L1.MsgUpdateChallenger(self)", "L1.MsgUpdateBatchInfo", "L1.MsgUpdateMetadata", "L1.MsgUpdateOracleConfig", "L1.MsgUpdateParams",
-		"L2.MsgFinalizeTokenDeposit", "L2.MsgFinalizeTokenDeposit(stale)", "L2.MsgSetBridgeInfo", "L2.MsgUpdateOracle", "L2.MsgAddValidator", "L2.MsgRemoveValidator", "L2.MsgUpdateParams", "L2.MsgSpendFeePool", "L2.MsgExecuteMessages"} {
+	for _, m := range []string{"L1.MsgProposeOutput", "L1.MsgDeleteOutput", "L1.MsgUpdateProposer", "L1.MsgUpdateChallenger", "L1.MsgUpdateProposer(self)", "L1.MsgUpdateChallenger(self)", "L1.MsgUpdateProposer(no change)", "L1.MsgUpdateChallenger(no change)", "L1.MsgUpdateBatchInfo(no change)", "L1.MsgUpdateMetadata(no change)", "L1.MsgUpdateOracleConfig(no change)", "L1.MsgUpdateParams(no change)", "L1.MsgUpdateBatchInfo", "L1.MsgUpdateMetadata", "L1.MsgUpdateOracleConfig", "L1.MsgUpdateParams",
+		"L2.MsgFinalizeTokenDeposit", "L2.MsgFinalizeTokenDeposit(stale)", "L2.MsgSetBridgeInfo", "L2.MsgUpdateOracle", "L2.MsgAddValidator", "L2.MsgRemoveValidator", "L2.MsgUpdateParams", "L2.MsgUpdateParams(no change)", "L2.MsgSpendFeePool", "L2.MsgExecuteMessages"} {
 		run.Declare("C12.cell_allowed."+m, 5) // every message type must be seen succeeding for a legitimate holder
 	}
 	c := &c12{run: run, rng: rng}
